@@ -41,6 +41,7 @@ class Report(object):
         self.extra = {}
         self.t0 = time.time()
         self.rule_counts = {}
+        self.count_failures = []
 
     # -- recording ----------------------------------------------------------
     def ok(self, rule, subject, what, loc="", trivial=False):
@@ -69,10 +70,10 @@ class Report(object):
 
     def count(self, rule, n, minimum):
         """Instance-count guard: a rule that matched fewer subjects than confirmed by reading cannot vouch."""
-        from .loader import AnalysisError
         self.rule_counts[rule] = n
         if n < minimum:
-            raise AnalysisError(rule, "only %d subject(s) found, at least %d confirmed by reading - anchor lost" % (n, minimum))
+            # deferred: a tree that lost subjects AND shows a violation is reported as a violation (cli decides)
+            self.count_failures.append((rule, "only %d subject(s) found, at least %d confirmed by reading - anchor lost" % (n, minimum)))
 
     # -- results --------------------------------------------------------------
     def violations(self):
